@@ -24,5 +24,6 @@ def run(ctx):
         ctx.guard("C04", "store", lambda: parser.symbol_store(ctx, prog))
         ctx.guard("C04", "lookahead", lambda: parser.strict_lookahead(ctx, prog))
         ctx.guard("C04", "blocksize", lambda: parser.block_size_field(ctx, prog))
+        ctx.guard("C04", "forms", lambda: parser.entry_forms(ctx, prog))
         ctx.guard("C04", "tables", lambda: data.base64_tables(ctx, prog))
     return ctx.finish(EXPL, ["overflow checks of debug builds are not part of the verdict (release-like configurations decide)", "core slice/iterator APIs panic only as documented", "residue entries are reviewed by hand; each states its reason"])
